@@ -217,7 +217,7 @@ Theorem C04_wrap_plain :
     ce_text env <> WNone -> quiet_all root ->
     convert env mr root =
       (let* children := convert (no_text env) mr root in
-       Ok (on_last_deepest (fun n => insert_text n (whole_text (ce_text env))) children)).
+       Ok (on_last_deepest (fun n => insert_wrap env n (whole_text (ce_text env))) children)).
 Proof. exact wrap_plain_full. Qed.
 Print Assumptions C04_wrap_plain.
 
@@ -228,7 +228,7 @@ Theorem C04_wrap_plain_unconsumed :
     conv_list env root
       (mkCst false (match mr with Some m => Z.of_N m | None => 1000000%Z end) [] false) = Ok (children, st) ->
     cs_text_inserted st = false ->
-    convert env mr root = Ok (on_last_deepest (fun n => insert_text n (whole_text (ce_text env))) children).
+    convert env mr root = Ok (on_last_deepest (fun n => insert_wrap env n (whole_text (ce_text env))) children).
 Proof. exact wrap_plain. Qed.
 Print Assumptions C04_wrap_plain_unconsumed.
 
